@@ -21,9 +21,13 @@ import glob, json, os
 ROOT = os.path.dirname(os.path.abspath(__file__))
 HOOK_COMMITS = json.load(open(os.path.join(ROOT, "hooks.json")))["source_commits"]
 
+# not_ready.json (lead-owned): properties whose check is still being built; they are listed under
+# not_applicable with that reason until their builder reports them green
+_NOT_READY = set(json.load(open(os.path.join(ROOT, "not_ready.json"))))
 PROPS = {}
 for f in sorted(glob.glob(os.path.join(ROOT, "props.d", "C*.json"))):
-    PROPS[os.path.basename(f)[:-5]] = json.load(open(f))
+    if os.path.basename(f)[:-5] not in _NOT_READY:
+        PROPS[os.path.basename(f)[:-5]] = json.load(open(f))
 
 _NA_REASONS = json.load(open(os.path.join(ROOT, "not_applicable.json")))
 ALL_IDS = ["C%02d" % i for i in range(1, 21)]
